@@ -46,7 +46,15 @@ func (s *Suite) Add(fn int, kind string, small bool, in V, out V) {
 }
 
 func (s *Suite) Violate(what, detail string, replay V) {
-	s.Violations = append(s.Violations, Violation{What: what, Detail: detail, Replay: replay, ReplayS: S(replay)})
+	rs, ok := replay.(string)
+	if !ok {
+		rs = S(replay)
+	}
+	if len(s.Violations) < 200 {
+		s.Violations = append(s.Violations, Violation{What: what, Detail: detail, Replay: replay, ReplayS: rs})
+	} else {
+		s.Dist["violations-not-listed(>200)"]++
+	}
 }
 
 type suiteFn func(s *Suite, rng *Rng, tier string)
@@ -92,7 +100,11 @@ func (s *Suite) write(dir string) error {
 	distinct := map[string]bool{}
 	for _, c := range s.Cases {
 		in := S(c.In)
-		fmt.Fprintf(&cases, "%d\t%s\t%s\t%s\n", c.Fn, in, S(c.Out), c.Kind)
+		sm := 0
+		if c.Small {
+			sm = 1
+		}
+		fmt.Fprintf(&cases, "%d\t%s\t%s\t%s\t%d\n", c.Fn, in, S(c.Out), c.Kind, sm)
 		distinct[fmt.Sprintf("%d|%s", c.Fn, in)] = true
 	}
 	if err := os.WriteFile(filepath.Join(dir, "cases.tsv"), []byte(cases.String()), 0o644); err != nil {
@@ -107,8 +119,8 @@ func (s *Suite) write(dir string) error {
 	}
 	n := len(smallCases)
 	shards := 16
-	if n < 64 {
-		shards = 1 + n/8
+	if n < 16 {
+		shards = n
 	}
 	for k := 0; k < shards && n > 0; k++ {
 		small.Reset()
@@ -162,4 +174,29 @@ func (s *Suite) write(dir string) error {
 	}
 	b, _ := json.MarshalIndent(meta, "", " ")
 	return os.WriteFile(filepath.Join(dir, "meta.json"), b, 0o644)
+}
+
+type corpusFile struct {
+	name string
+	data []byte
+}
+
+// corpusFiles returns the committed corpus for a suite (minimised earlier failures).
+func corpusFiles(suite string) []corpusFile {
+	dir := os.Getenv("VERIF_ROOT")
+	if dir == "" {
+		dir = "/verif"
+	}
+	ents, err := os.ReadDir(filepath.Join(dir, "corpus", suite))
+	if err != nil {
+		return nil
+	}
+	var out []corpusFile
+	for _, e := range ents {
+		b, err := os.ReadFile(filepath.Join(dir, "corpus", suite, e.Name()))
+		if err == nil {
+			out = append(out, corpusFile{e.Name(), b})
+		}
+	}
+	return out
 }
